@@ -29,6 +29,7 @@ type Store struct {
 	retainedCheckpointsUpdated chan []uint64
 	state                      storeState
 	stateMu                    sync.Mutex
+	notifyMu                   sync.Mutex // serializes retained checkpoint notifications
 	sourceSplitters            []connectors.SourceSplitter
 }
 
@@ -202,6 +203,14 @@ func (s *Store) finishSnapshotAsync(snap *jobSnapshot) (uri string, err error) {
 	// Accessing state to update completedSnapshots
 	s.stateMu.Lock()
 
+	// Snapshots are published asynchronously, so a later checkpoint may have
+	// been published already. Then this one is obsolete itself and must not
+	// replace the newer one.
+	if s.isSupersededLocked(snap) {
+		s.stateMu.Unlock()
+		return s.finishSupersededSnapshot(uri, snap)
+	}
+
 	// When a new checkpoint is finished, all previous checkpoints are obsolete.
 	if len(s.state.completedSnapshots) > 0 {
 		obsoleteIDs := make([]uint64, 0, len(s.state.completedSnapshots))
@@ -223,7 +232,13 @@ func (s *Store) finishSnapshotAsync(snap *jobSnapshot) (uri string, err error) {
 		// Notify subscribers of new list of checkpoints to retain (just the completed one)
 		if s.retainedCheckpointsUpdated != nil {
 			go func() {
-				s.retainedCheckpointsUpdated <- []uint64{snap.id}
+				// Notifications of consecutive checkpoints may be sent in any
+				// order. Announce the newest completed checkpoint at the time of
+				// sending, one notification at a time, so that the subscriber
+				// never ends up retaining only an older checkpoint.
+				s.notifyMu.Lock()
+				defer s.notifyMu.Unlock()
+				s.retainedCheckpointsUpdated <- []uint64{s.newestCompletedID(snap.id)}
 			}()
 		}
 	}
@@ -242,6 +257,45 @@ func (s *Store) finishSnapshotAsync(snap *jobSnapshot) (uri string, err error) {
 		s.log.Info("store wrote savepoint", "uri", spURI)
 	}
 	return uri, nil
+}
+
+// isSupersededLocked reports whether a checkpoint later than snap has already
+// been published. The caller holds stateMu.
+func (s *Store) isSupersededLocked(snap *jobSnapshot) bool {
+	for _, completed := range s.state.completedSnapshots {
+		if completed.id > snap.id {
+			return true
+		}
+	}
+	return false
+}
+
+// finishSupersededSnapshot completes the publication of a checkpoint that was
+// overtaken by a later one: its savepoint, if requested, is still created and
+// its now obsolete snapshot file is removed.
+func (s *Store) finishSupersededSnapshot(uri string, snap *jobSnapshot) (string, error) {
+	if snap.isSavepoint {
+		if _, err := CreateSavepointArtifact(s.fileStore, s.savepointsPath, uri, snap); err != nil {
+			return "", err
+		}
+	}
+	path := filepath.Join(s.checkpointsPath, "job-"+pathSegment(snap.id)+".snapshot")
+	if err := s.fileStore.Remove(path); err != nil {
+		s.log.Error("failed to remove obsolete checkpoint file", "path", path, "err", err)
+	}
+	return uri, nil
+}
+
+// newestCompletedID returns the ID of the newest published checkpoint, which is
+// at least atLeast.
+func (s *Store) newestCompletedID(atLeast uint64) uint64 {
+	s.stateMu.Lock()
+	defer s.stateMu.Unlock()
+	newest := atLeast
+	for _, completed := range s.state.completedSnapshots {
+		newest = max(newest, completed.id)
+	}
+	return newest
 }
 
 // CurrentCheckpoint returns the latest checkpoint from memory.
